@@ -1,0 +1,84 @@
+//go:build verif
+
+package fox
+
+import (
+	"fmt"
+	"strconv"
+	"strings"
+)
+
+// Verification hooks, compiled only with the "verif" build tag. They expose private state read-only
+// (canonical dumps used as state-deduplication keys and diagnostics) and one installable scheduling hook.
+
+// VerifHook, when non-nil, is called at every verifPoint with the point's label.
+var VerifHook func(label string)
+
+func verifPoint(label string) {
+	if h := VerifHook; h != nil {
+		h(label)
+	}
+}
+
+// VerifRouteID is the annotation key whose value, if set on a route, identifies the route in dumps.
+type VerifRouteID struct{}
+
+// VerifShape returns a canonical dump of the published routing tree of r.
+func VerifShape(r *Router) string {
+	t := r.getRoot()
+	return verifDump(t.root, t.size, t.maxParams, t.depth)
+}
+
+// VerifTxnShape returns a canonical dump of the (possibly uncommitted) state of txn, "" if settled.
+func VerifTxnShape(txn *Txn) string {
+	if txn.rootTxn == nil {
+		return ""
+	}
+	t := txn.rootTxn
+	return verifDump(t.root, t.size, t.maxParams, t.depth)
+}
+
+// VerifTreeID returns an identity for the currently published tree version (changes on every commit).
+func VerifTreeID(r *Router) string {
+	return fmt.Sprintf("%p", r.getRoot())
+}
+
+// VerifGlobalMws returns len and cap of the router-wide middleware slice.
+func VerifGlobalMws(r *Router) (int, int) {
+	return len(r.mws), cap(r.mws)
+}
+
+func verifDump(root roots, size int, maxParams, depth uint32) string {
+	var sb strings.Builder
+	sb.WriteString("size=" + strconv.Itoa(size) + " maxParams=" + strconv.Itoa(int(maxParams)) + " depth=" + strconv.Itoa(int(depth)) + "\n")
+	for _, n := range root {
+		verifDumpNode(&sb, n, 0)
+	}
+	return sb.String()
+}
+
+func verifDumpNode(sb *strings.Builder, n *node, indent int) {
+	sb.WriteString(strings.Repeat(" ", indent))
+	sb.WriteString(strconv.Quote(n.key))
+	sb.WriteString(" ck=" + strconv.Quote(string(n.childKeys)))
+	sb.WriteString(" p=" + strconv.Itoa(n.paramChildIndex) + " w=" + strconv.Itoa(n.wildcardChildIndex))
+	if n.route != nil {
+		sb.WriteString(" leaf=" + strconv.Quote(n.route.pattern))
+		if id := n.route.annots[VerifRouteID{}]; id != nil {
+			sb.WriteString(fmt.Sprintf("#%v", id))
+		}
+	}
+	for _, p := range n.params {
+		sb.WriteString(fmt.Sprintf(" (%s,%d,%v)", p.key, p.end, p.catchAll))
+	}
+	for in := n.inode; in != nil; in = in.inode {
+		sb.WriteString(" inode=" + strconv.Quote(in.key))
+		if in.route != n.route || len(in.children) != len(n.children) {
+			sb.WriteString("!MISMATCH")
+		}
+	}
+	sb.WriteByte('\n')
+	for _, c := range n.children {
+		verifDumpNode(sb, c, indent+1)
+	}
+}
